@@ -56,6 +56,18 @@ def mutate_region(rng, data, regions):
             if d[i] == 0: d[i] = 0x42
     return bytes(d), {'kind': 'region-' + k, 'pos': pos, 'len': n}
 
+def mutate_argword(rng, data, regions):
+    """Set one aligned 32-bit word inside a bulk region (an instruction's argument blob: register ids, jump targets, the length
+    prefix of a length-prefixed string, counts) to a boundary value.  Returns (bytes, description)."""
+    cands = [(p, n) for p, n in regions if n >= 4]
+    if not cands: return mutate_region(rng, data, regions)
+    pos, n = rng.pick(cands)
+    q = pos + 4 * rng.randrange(n // 4)
+    cur = int.from_bytes(data[q:q + 4], 'little')
+    v = rng.pick(boundary_values(rng, 4, cur, len(data), q) + [n, n - (q - pos), n - (q - pos) - 3, n - (q - pos) + 1, 0x40, 0x7fffffff])
+    d = bytearray(data); d[q:q + 4] = (v & 0xffffffff).to_bytes(4, 'little')
+    return bytes(d), {'kind': 'argword', 'pos': q, 'region': [pos, n], 'old': cur, 'new': v & 0xffffffff}
+
 def truncate_points(fields, regions, filelen):
     pts = {p for p, _ in fields} | {p + w for p, w in fields} | {p for p, _ in regions} | {p + n for p, n in regions}
     pts |= {p + 1 for p, w in fields if w > 1}
